@@ -348,12 +348,12 @@ PROPS["C18"] = {
             "flush between them, or any block",
     "essential": {"all": ["blocked-in-request-phase", "request-body-limit-reject", "blocked-late", "passed-through", "request-body-at-limit",
                           "response-body-at-limit", "writes-with-flush-between", "partial-request-body-spliced", "partial-response-body-released",
-                          "real-server", "chunked-request", "no-body-status", "implicit-write-header", "file-reader-on-real-server", "blocked-by-redirect", "blocked-by-drop", "blocked-late-by-redirect", "informational-response-first"]},
+                          "real-server", "chunked-request", "no-body-status", "implicit-write-header", "file-reader-on-real-server", "blocked-by-redirect", "blocked-by-drop", "blocked-late-by-redirect", "informational-response-first", "silent-handler"]},
     "assumptions": COMMON_ASSUME + [
         "a redirect is expected to answer with the interruption's status (302 unless the rule names 301/307) and the target in Location; a drop, which "
         "has no status of its own, with anything but a success status and none of the handler's output",
         "a phase-4 rule is expected to act only when the response body is accessible and its MIME type selected (otherwise the middleware never runs that phase)",
-        "handlers that write nothing at all and hijacked connections are out of scope",
+        "hijacked connections are out of scope",
     ],
 }
 
